@@ -262,8 +262,20 @@ fn from_occupancy_spike(max_per_kind: u32) {
 #[kani::unwind(66)]
 #[kani::stub(crate::attacks::AttackGenerator::compute, stub_compute_spike)]
 fn c10_successor_answers_are_fresh() {
+    successor_obligation(2)
+}
+
+/// thorough tier: the same with up to three pieces per kind and colour
+#[kani::proof]
+#[kani::unwind(66)]
+#[kani::stub(crate::attacks::AttackGenerator::compute, stub_compute_spike)]
+fn c10_successor_answers_are_fresh_3() {
+    successor_obligation(3)
+}
+
+fn successor_obligation(max_per_kind: u32) {
     use crate::state::verif_c02::{consistent, rights_wf};
-    let p = spike_position(2);
+    let p = spike_position(max_per_kind);
     let turn = any_color();
     let rights = any_rights();
     let ep = any_opt_square();
